@@ -336,3 +336,81 @@ Definition v_get_stats_kw (arr : nd) (w : option nd) (nsig : option Q) (niter : 
                verdict c c
       end
   end.
+
+(* ================================================================ undefined statistics *)
+(* A subset with zero total weight has no weighted mean / deviation / error (UndefModel.v).  On such calls the
+   real code returns nan (inf), which is not a failing input, and a finite number would be one.
+   verdict -2 = UNDEFINED-STATISTICS: the implementation reported non-finite statistics exactly where the model
+   says they do not exist (and, for sigma_clip, the index set of the subset on which they ceased to exist);
+   counted, not compared.  The *_guard functions turn an ordinary verdict into 3 when the implementation returned
+   finite numbers although the statistics do not exist. *)
+From EsVerif.C18 Require Import UndefModel.
+
+Definition undef : Z := (-2)%Z.
+
+Definition sc_wf (x : list Q) (w : option (list Q)) (nsig : Q) : bool :=
+  Nat.eqb (length (sc_weights x w)) (length x) && negb (Nat.eqb (length x) 0) && Qle_bool 0 nsig.
+
+(* bord: the borderline test of the ordinary verdict (sc_borderline / sc_border_e) *)
+Definition v_sigma_clip_undef (bord : bool) (x : list Q) (w : option (list Q)) (niter : Z) (nsig : Q) (idx : list Z) : Z :=
+  if sc_wf x w nsig then
+    if bord then skip else
+    match sigma_clip_u x w (Z.to_nat niter) nsig with
+    | ScUndef i => if zlist_eqb i idx then undef else 3%Z
+    | ScOk _ => 3%Z
+    end
+  else 3%Z.
+
+Definition sc_guard (x : list Q) (w : option (list Q)) (niter : Z) (nsig : Q) (k : Z) : Z :=
+  if (k =? skip)%Z then k else
+  if sc_wf x w nsig then
+    match sigma_clip_u x w (Z.to_nat niter) nsig with ScUndef _ => 3%Z | ScOk _ => k end
+  else k.
+
+Fixpoint bools_eqb (a b : list bool) : bool :=
+  match a, b with
+  | [], [] => true
+  | x :: s, y :: t => Bool.eqb x y && bools_eqb s t
+  | _, _ => false
+  end.
+
+(* nf: for every column, whether some returned value of that column is not finite *)
+Definition v_wmom_undef (arr wts : nd) (nf : list bool) : Z :=
+  let u := wmom_undef_cols arr wts in
+  if existsb (fun b => b) u && bools_eqb u nf then undef else 3%Z.
+Definition wmom_guard (arr wts : nd) (k : Z) : Z :=
+  if existsb (fun b => b) (wmom_undef_cols arr wts) then 3%Z else k.
+
+Definition gs_undef_cols (arr : nd) (w : option nd) (nsig : option Q) (niter : option Z) : list bool :=
+  let a := atleast_1d arr in
+  map (fun j =>
+         let wl := match w with Some wn => Some (wcol_of (atleast_1d wn) j) | None => None end in
+         match gs_clip nsig niter with
+         | Some (ns, ni) => match sigma_clip_u (data_col a j) wl ni ns with ScUndef _ => true | ScOk _ => false end
+         | None => match wl with Some l => Qeq_bool (qsum l) 0 | None => false end
+         end) (seq 0 (data_ncols a)).
+
+Definition gs_borderline (arr : nd) (w : option nd) (nsig : option Q) (niter : option Z) : bool :=
+  let a := atleast_1d arr in
+  match gs_clip nsig niter with
+  | Some (ns, ni) => existsb (fun j => sc_borderline (data_col a j)
+                                         (match w with Some wn => Some (wcol_of (atleast_1d wn) j) | None => None end) ni ns)
+                             (seq 0 (data_ncols a))
+  | None => false
+  end.
+
+Definition v_get_stats_undef (arr : nd) (w : option nd) (nsig : option Q) (niter : option Z) (nf : list bool) (idx : list Z) : Z :=
+  if gs_borderline arr w nsig niter then skip else
+  let u := gs_undef_cols arr w nsig niter in
+  let idx_ok := match gs_clip nsig niter, atleast_1d arr with
+                | Some (ns, ni), V1 x =>
+                    match sigma_clip_u x (match w with Some wn => Some (wcol_of (atleast_1d wn) 0) | None => None end) ni ns with
+                    | ScUndef i => zlist_eqb i idx
+                    | ScOk _ => false
+                    end
+                | _, _ => true
+                end in
+  if existsb (fun b => b) u && bools_eqb u nf && idx_ok then undef else 3%Z.
+Definition gs_guard (arr : nd) (w : option nd) (nsig : option Q) (niter : option Z) (k : Z) : Z :=
+  if (k =? skip)%Z then k else
+  if existsb (fun b => b) (gs_undef_cols arr w nsig niter) then 3%Z else k.
